@@ -62,6 +62,10 @@ func vPayload(hdr []byte, secs []vSection) []byte {
 
 func vValidSection(tag string, maxData int) vSection {
 	c := vCidT(tag)
+	if c.Prefix().MhType == 0 {
+		// identity: the data is the digest
+		return vSection{c: c, data: vIdentityPayload(c)}
+	}
 	data := vBytes(tag+".data", vChoose(tag+".len", maxData+1))
 	vAssume(vValidBlock(c, data))
 	return vSection{c: c, data: data}
